@@ -46,6 +46,7 @@ type ExprGen struct {
 	NoQuant  bool
 	binds    []bindInfo
 	qdepth   int
+	forced   *target
 }
 
 func NewExprGen(t *rapid.T, root *uni.Node, tag string) *ExprGen {
@@ -406,6 +407,13 @@ func (g *ExprGen) Match() *bx.Match {
 	return m
 }
 
+// QuantOver draws a quantifier over the given collection path.
+func (g *ExprGen) QuantOver(parts []string, node *uni.Node, depth int) *bx.Quant {
+	g.forced = &target{parts: parts, node: node}
+	defer func() { g.forced = nil }()
+	return g.Quant(depth)
+}
+
 // Quant draws a quantifier whose body may use its bindings.
 func (g *ExprGen) Quant(depth int) *bx.Quant {
 	q := &bx.Quant{All: g.intn(2, "all") == 1, Mode: bx.BindMode(g.intn(4, "mode"))}
@@ -443,6 +451,11 @@ func (g *ExprGen) Quant(depth int) *bx.Quant {
 				break
 			}
 		}
+	}
+	if g.forced != nil {
+		t = *g.forced
+		g.forced = nil
+		useBind = true
 	}
 	if !useBind {
 		if len(colls) > 0 && g.intn(10, "qcoll") < 8 {
